@@ -221,7 +221,7 @@ func c17Errors(rc *RuleCtx) {
 	st := errsT.Underlying().(*types.Struct)
 	var fields []string
 	for i := 0; i < st.NumFields(); i++ {
-		fields = append(fields, st.Field(i).Name())
+		fields = append(fields, fieldRole(errsT, i, st.Field(i).Name()))
 	}
 	// totality of the meaning table against the struct
 	for _, fn := range fields {
